@@ -23,8 +23,8 @@ package join
 //@ o-ensures: [length] len(r) == sumLen(listOfLists, len(listOfLists))
 //@ o-ensures: [concatenation-in-order] forall a int, b int :: 0 <= a && a < len(listOfLists) && 0 <= b && b < len(listOfLists[a]) ==> r[sumLen(listOfLists, a) + b] == listOfLists[a][b]
 //@ o-loop: 1: invariant l == sumLen(listOfLists, $i)
-//@ o-loop: 2: invariant res != nil && len(res) == sumLen(listOfLists, $i)
-//@ o-loop: 2: invariant forall a int, b int :: 0 <= a && a < $i && 0 <= b && b < len(listOfLists[a]) ==> res[sumLen(listOfLists, a) + b] == listOfLists[a][b]
+//@ o-loop: 2: invariant $out0 != nil && len($out0) == sumLen(listOfLists, $i)
+//@ o-loop: 2: invariant forall a int, b int :: 0 <= a && a < $i && 0 <= b && b < len(listOfLists[a]) ==> $out0[sumLen(listOfLists, a) + b] == listOfLists[a][b]
 
 //@ func (g *gen) genString(typs []types.Type) (err error)
 //@ param typs: len=1 kind0=Slice ekind0=Basic ebasic0=string
